@@ -5,7 +5,7 @@ import numpy as np
 from hypothesis import strategies as st
 
 from vf import gen, quant
-from vf.core import Verdict, lib, mk_basis, mk_shell, nfunc
+from vf.core import Verdict, lib, mk_basis, mk_shell, nfunc, case_hash
 from vf.props.c09 import env_st
 from vf.run import SubCheck
 
@@ -82,7 +82,7 @@ def rewrites(case):
 
 def judge(case):
     shells = case["shells"]
-    env = dict(case["env"])
+    env = quant.with_screen_band(dict(case["env"]), shells, int(case_hash(shells), 16) >> 7)
     s = shells[case["shell"]]
     K, M = len(s["exps"]), len(s["coeffs"][0])
     v = Verdict(classes=[case["kind"]])
